@@ -73,6 +73,13 @@ type Report struct {
 	ProbeCalls         []facts.ProbeCall
 	ProbePhases        [][]facts.ProbeCall // probe invocations per evaluation phase
 	EndedBy            string              // "quiescence", "complete", "cyclelimit", "error", "panic"
+	FaultSeen          bool                // the injected probe fault was reached
+	FaultIn            string              // "condition" or "action"
+	FaultRule          string              // rule being evaluated / executed when the fault hit
+	FaultEventIndex    int
+	FaultPre           *facts.State
+	FaultPost          *facts.State
+	FaultCycle         uint64
 	NotesAB            int                 // disagreements between reference truth (A) and fresh-engine truth (B)
 }
 
@@ -263,6 +270,43 @@ func names(m map[string]bool) []string {
 }
 
 func validate(c *Case, p *Prepared, rep *Report) {
+	// locate the injected probe fault, if any
+	rep.FaultIn = ""
+	if c.ProbeFailAt > 0 && c.ProbeMode != facts.FailCancel {
+		inFiring := ""
+		for i := range rep.Events {
+			ev := &rep.Events[i]
+			switch ev.Kind {
+			case obs.EvBegin:
+				inFiring = ""
+			case obs.EvExec:
+				inFiring = ev.Rule
+			case obs.EvProbe:
+				if ev.ProbeN != c.ProbeFailAt {
+					continue
+				}
+				rep.FaultSeen = true
+				rep.FaultEventIndex = i
+				if inFiring != "" {
+					rep.FaultIn = "action"
+					rep.FaultRule = inFiring
+					continue
+				}
+				rep.FaultIn = "condition"
+				// the rule under evaluation is the one whose evaluation event follows
+				for j := i + 1; j < len(rep.Events); j++ {
+					if rep.Events[j].Kind == obs.EvProbe {
+						continue
+					}
+					if rep.Events[j].Kind == obs.EvEval {
+						rep.Events[j].Faulted = true
+						rep.FaultRule = rep.Events[j].Rule
+					}
+					break
+				}
+			}
+		}
+	}
 	// split into cycles
 	var cycles []*cycleRec
 	var cur *cycleRec
@@ -343,6 +387,20 @@ func validate(c *Case, p *Prepared, rep *Report) {
 				rep.add("C10", "cycle %d: rule %s was evaluated after it had been retracted", cy.n, ev.Rule)
 			}
 			truth := ev.Truth && ev.TruthErr == nil
+			if ev.Faulted {
+				// the injected failure happened while this rule's condition was evaluated: by default the
+				// rule is simply not a candidate in this cycle
+				if ev.Cand {
+					rep.add("C14", "cycle %d: rule %s is reported as candidate although evaluating its condition failed (injected probe failure)", cy.n, ev.Rule)
+				}
+				if c.ErrOnFail {
+					rep.add("C14", "cycle %d: the evaluation of %s failed but Execute went on although ReturnErrOnFailedRuleEvaluation is set", cy.n, ev.Rule)
+				}
+				continue
+			}
+			if ev.TruthErr != nil && c.ErrOnFail {
+				rep.add("C14", "cycle %d: the condition of %s fails to evaluate (%v) but Execute went on although ReturnErrOnFailedRuleEvaluation is set", cy.n, ev.Rule, ev.TruthErr)
+			}
 			if truth {
 				trueSet[ev.Rule] = true
 			}
@@ -468,6 +526,16 @@ func validate(c *Case, p *Prepared, rep *Report) {
 		} else {
 			post = rep.Final
 		}
+		if rep.FaultIn == "action" && rep.FaultRule == ex.Rule && lastFiringOfFault(rep, cy.n) {
+			// checked by the fault-specific oracle of C14 (existential prefix match)
+			rep.FaultPre = ex.State
+			rep.FaultPost = post
+			if !lastFiring {
+				rep.add("C14", "cycle %d: an action of rule %s failed (injected) but the run continued with another cycle", cy.n, ex.Rule)
+			}
+			stopValidation = true
+			continue
+		}
 		model := ex.State.Copy()
 		env := ref.New(model)
 		done, rerr := env.ExecAll(rule.Then)
@@ -491,7 +559,7 @@ func validate(c *Case, p *Prepared, rep *Report) {
 		} else if lastFiring && rep.Err != nil && !IsCycleLimitErr(rep.Err) && strings.Contains(rep.Err.Error(), "executing rule") && c.ProbeFailAt == 0 && !c.UseContext {
 			rep.add("C04", "rule %s: the engine reports an action error the reference does not predict: %v", ex.Rule, rep.Err)
 		}
-		if post != nil && c.ProbeFailAt == 0 {
+		if post != nil {
 			if d := facts.Diff(model, post); len(d) > 0 {
 				prop := "C04"
 				if actionFailed {
@@ -566,6 +634,9 @@ func validate(c *Case, p *Prepared, rep *Report) {
 					rep.add("C02", "Execute returned nil right after firing %s without Complete and without a further evaluation phase", last.exec.Rule)
 				}
 				for _, ev := range last.evals {
+					if ev.Faulted {
+						continue // its evaluation failed (injected): legitimately not a candidate
+					}
 					if ev.Truth && ev.TruthErr == nil && !retracted[ev.Rule] {
 						rep.add("C02", "Execute returned nil although rule %s is satisfied on the final facts", ev.Rule)
 					}
@@ -600,6 +671,18 @@ func validate(c *Case, p *Prepared, rep *Report) {
 	default:
 		rep.EndedBy = "error"
 	}
+}
+
+func lastFiringOfFault(rep *Report, cycle uint64) bool {
+	// the fault belongs to the firing whose execution event precedes the fault's probe event most closely
+	var c uint64
+	for i := 0; i < rep.FaultEventIndex && i < len(rep.Events); i++ {
+		if rep.Events[i].Kind == obs.EvExec {
+			c = rep.Events[i].Cycle
+		}
+	}
+	rep.FaultCycle = c
+	return c == cycle
 }
 
 func unfreeze(e gast.Expr) gast.Expr {
